@@ -123,9 +123,60 @@ fn main() {
 }
 "#;
 
+/// elements that are themselves arrays, result types NOT annotated: regrouping removes / adds exactly one level
+const PROGRAM_NESTED: &str = r#"
+#![allow(warnings)]
+use generic_array::sequence::{Flatten, GenericSequence, Unflatten};
+use generic_array::typenum::*;
+use generic_array::GenericArray;
+type E = GenericArray<u8, U2>;
 fn main() {
-    let _a = args();
+    let mut src: GenericArray<GenericArray<E, U3>, U2> =
+        GenericArray::generate(|i| GenericArray::generate(|j| GenericArray::generate(|k| (100 * i + 10 * j + k) as u8)));
+    let want: Vec<[u8; 2]> = (0..2).flat_map(|i| (0..3).map(move |j| [(100 * i + 10 * j) as u8, (100 * i + 10 * j + 1) as u8])).collect();
+    let base = &src as *const _ as usize;
+    {
+        let f = (&src).flatten();
+        let got: Vec<[u8; 2]> = f.iter().map(|e| [e[0], e[1]]).collect();
+        println!("ref {} {} {}", f.len(), (f as *const _ as usize) == base, got == want);
+    }
+    {
+        let f = (&mut src).flatten();
+        f[4][1] = 77;
+        println!("mut {}", f.len());
+    }
+    println!("wrote {}", src[1][1][1]);
+    let o = src.clone().flatten();
+    println!("owned {} {}", o.len(), o[4][1]);
+    let back: GenericArray<GenericArray<E, U3>, U2> = o.unflatten();
+    println!("back {}", back == src);
+}
+"#;
+
+fn nested(p: &Probe) {
+    emit_case(&[9, 0]);
+    dist("nested-elements");
+    match p.compile_and_run("c11p_nested", PROGRAM_NESTED) {
+        Ok(out) if out == "ref 6 true true\nmut 6\nwrote 77\nowned 6 77\nback true\n" => emit_obs(&[1]),
+        Ok(out) => {
+            emit_obs(&[0]);
+            emit_oracle(&format!("flatten / unflatten over elements that are arrays themselves printed {:?}", out));
+        }
+        Err(e) => {
+            emit_obs(&[-1]);
+            emit_oracle(&format!("flatten / unflatten of an array whose elements are arrays themselves, result types not annotated, is rejected: {}", e.chars().take(400).collect::<String>()));
+        }
+    }
+    flush_dist();
+}
+
+fn main() {
+    let a = args();
     let p = Probe::new("c11p");
+    if a.extra.iter().any(|x| x == "--nested") {
+        nested(&p);
+        return;
+    }
     note(&format!("rlib {}", p.rlib.display()));
     match p.compile_and_run("c11p_probe", PROGRAM) {
         Ok(out) => {
